@@ -103,6 +103,15 @@ def run(ctx):
         whole = any(q.short_of(pstr.callee(j)) == 'begin' for j in pstr.calls(a[0])) and any(q.short_of(pstr.callee(j)) == 'end' for j in pstr.calls(a[1])) and \
             all(model.strip_targs(r).endswith('tockenizer::str') or r == 'this' or r.startswith('fn:') for x in a[:2] for r in pstr.subtree_refs(x))
         ctx.check(whole, R3, 'parse_string:validates-whole-decoded-string', 'validation does not cover the whole decoded string', pstr.loc(vc[0]))
+        # JSON strings may hold any code point (escaped control characters, DEL, C1): the validation must not run in the html-safe mode
+        g_v = P.fns.get(pstr.N(vc[0]).get('callee') or '')
+        hp = [k_ for k_, p_ in enumerate(g_v.params) if (g_v.types[p_['t']] or '').strip() in ('bool', '_Bool')] if g_v is not None else []
+        eff = None
+        if hp and len(a) > hp[0]:
+            eff = pstr.const_value(a[hp[0]])
+            if eff is None:
+                eff = pstr.N(pstr.strip(a[hp[0]])).get('cv')
+        ctx.check(bool(hp) and eff == 0, R3, 'parse_string:validation-is-plain-UTF-8-not-html-safe', 'the decoded string is validated in html-safe mode (effective argument %r): well-formed documents with \\u0000-\\u001f, DEL or C1 characters are rejected' % (eff,), pstr.loc(vc[0]))
     # raw control characters rejected: every append of the raw byte is past the 0..0x1F test
     g_ctl = pstr.gate_edges(lambda atom, pol: pstr.N(atom)['k'] == 'BinaryOperator' and pol is False and
                             ((pstr.N(atom).get('op') in ('<=', '<') and pstr.const_value(pstr.N(atom)['ch'][1]) in (0x1F, 0x20)) or
